@@ -36,7 +36,8 @@ OPS = ["merge", "merge_all", "flat_map", "flat_map_indexed", "concat_map", "merg
 REQUIRED = {"set:ops": len(OPS), "inner_subscriptions": {"quick": 6000, "thorough": 120000},
             "queued_arrivals": {"quick": 300, "thorough": 6000}, "completions_checked": {"quick": 1500, "thorough": 30000},
             "completed_by_outer_last": {"quick": 100, "thorough": 2000}, "completed_by_inner_last": {"quick": 300, "thorough": 6000},
-            "error_terminations": {"quick": 300, "thorough": 6000}, "concurrency_limit_reached": {"quick": 200, "thorough": 4000}}
+            "error_terminations": {"quick": 300, "thorough": 6000}, "concurrency_limit_reached": {"quick": 200, "thorough": 4000},
+            "reentrant_terminal_cases": {"quick": 500, "thorough": 10000}}
 
 
 def units(tier: str, seed: int) -> list[dict]:
@@ -314,10 +315,90 @@ def run_case(seed: int, idx: int, res: UnitResult) -> None:
                        "observed": show_timed(actual), "trace": show_trace(lab)}, {"seed": seed, "idx": idx})
 
 
+REENTRANT_VARIANTS = ["merge", "merge_op", "merge_all", "merge_max_concurrent", "flat_map", "flat_map_indexed", "concat_map"]
+
+
+def reentrant_terminal_case(seed: int, idx: int, res: UnitResult) -> None:
+    """"terminates on the first error" / "completes only after ...", with a subscriber that reacts to the terminal (or to an
+    element) by publishing into an inner Subject that is still active - from inside its own callback, on the same thread.
+    Whatever the merged output did before, nothing may follow its terminal notification, and elements pushed from inside an
+    on_next (while the output is open) must come out, in order."""
+    from reactivex.subject import Subject
+    from ..vlab import SrcErr
+    r = case_rng(seed, ID, "reentrant", idx)
+    variant = REENTRANT_VARIANTS[idx % len(REENTRANT_VARIANTS)]
+    lab = Lab("num")
+    a: Any = Subject()
+    b: Any = Subject()
+    outer: Any = Subject()
+    err = SrcErr("inner a failed")
+    fail_via = r.choice(["inner", "inner", "outer"]) if variant not in ("merge", "merge_op") else "inner"
+    react_on = r.choice(["E", "E", "N"])
+    pre = r.randint(0, 2)
+    pushed: list = []
+
+    def on_recv(kind: str, value: Any, obs: Any) -> None:
+        if kind == react_on and len(pushed) < 2 and not (kind == "N" and isinstance(value, str)):
+            pushed.append("echo%d" % len(pushed))
+            b.on_next(pushed[-1])
+    top = lab.observer("top", inner=False, on_recv=on_recv)
+    if variant == "merge":
+        o = rx.merge(a, b)
+    elif variant == "merge_op":
+        o = a.pipe(ops.merge(b))
+    elif variant == "merge_all":
+        o = outer.pipe(ops.merge_all())
+    elif variant == "merge_max_concurrent":
+        o = outer.pipe(ops.merge(max_concurrent=2))
+    elif variant == "flat_map":
+        o = outer.pipe(ops.flat_map(lambda x: x))
+    elif variant == "flat_map_indexed":
+        o = outer.pipe(ops.flat_map_indexed(lambda x, i: x))
+    else:
+        o = outer.pipe(ops.concat_map(lambda x: x))
+    lab.at(SUB_AT, lambda: top.subscribe_to(o))
+    if variant not in ("merge", "merge_op"):
+        lab.at(SUB_AT + 1, lambda: outer.on_next(b if variant == "concat_map" else a))
+        if variant != "concat_map":
+            lab.at(SUB_AT + 2, lambda: outer.on_next(b))
+    live_a = variant != "concat_map"          # concat_map: only b is subscribed (a would be queued), the error comes from the outer
+    if variant == "concat_map":
+        fail_via = "outer"
+    expected: list = []
+    t = SUB_AT + 10
+    for i in range(pre):
+        src, v = (a, i) if (live_a and i % 2 == 0) else (b, 100 + i)
+        lab.at(t, lambda src=src, v=v: src.on_next(v))
+        expected.append((t, "N", v))
+        if react_on == "N" and len([e for e in expected if isinstance(e[2], int)]) <= 2:
+            expected.append((t, "N", "echo%d" % (len([e for e in expected if isinstance(e[2], str)]))))
+        t += 10
+    lab.at(t, (lambda: a.on_error(err)) if fail_via == "inner" else (lambda: outer.on_error(err)))
+    expected.append((t, "E", err))
+    lab.at(t + 10, lambda: b.on_next("late"))
+    lab.run()
+    got = top.timed()
+    desc = {"family": "reentrant-terminal", "variant": variant, "error_from": fail_via, "subscriber_publishes_into_active_inner_on": react_on,
+            "elements_before_error": pre}
+    res.case(key=desc, nontrivial=True, sample={"case": desc, "expected": show_timed(expected), "observed": show_timed(got)} if idx % 50 == 0 else None)
+    res.count("reentrant_terminal_cases")
+    res.count("reentrant_publications", len(pushed))
+    why = match_exact(expected, got)
+    if why is not None:
+        res.violation("C11:%s:reentrant-publication-%s" % (variant, "after-error" if react_on == "E" else "inside-on_next"),
+                      {"why": why, "case": desc, "expected": show_timed(expected), "observed": show_timed(got)},
+                      {"seed": seed, "idx": idx, "family": "reentrant"})
+
+
 def run_unit(unit: dict, res: UnitResult) -> None:
     for idx in range(unit["lo"], unit["hi"]):
         run_case(unit["seed"], idx, res)
+        if idx % 10 == 0:
+            reentrant_terminal_case(unit["seed"], idx // 10, res)
 
 
 def replay(rep: dict, res: UnitResult) -> None:
+    if rep.get("family") == "reentrant":
+        reentrant_terminal_case(rep["seed"], rep["idx"], res)
+        return
     run_case(rep["seed"], rep["idx"], res)
